@@ -2,7 +2,9 @@
    Statements only; proofs are in C06_Proofs.v (L2, the byte format), C06_L1.v (L1, photospline's logic) and C06_Wf.v
    (well-formedness of the produced document from table-level conditions; operator==). *)
 From Coq Require Import List NArith ZArith Bool.
-From PS Require Import Generated_fits FitsModel FitsWf C06_Proofs C06_L1 C06_Wf.
+From Coq Require String.
+From PS Require Import Generated_fits FitsModel FitsWf C06_Proofs C06_L1 C06_Wf C06_AuxTie.
+From PS Require AuxModel Generated_aux.
 Import ListNotations.
 Open Scope N_scope.
 
@@ -47,6 +49,22 @@ Proof. exact wf_doc_to_doc. Qed.
 Theorem C06_roundtrip : forall t, wf_table' t = true ->
   exists t', of_bytes (to_bytes t) = Ok t' /\ read_bytes (to_bytes t) = Ok t' /\ table_eq_upto_padding t t'.
 Proof. exact roundtrip_full. Qed.
+
+(* the auxiliary-entry conjunct of wf_table' against C16's model of write_key (AuxModel.accepts with the parameters read from
+   the current source tree): every accepted (key, value) satisfies aux_entry_ok, except EXTNAME / HDUNAME (known finding) and
+   HIERARCH keys whose card does not fit in the standard form; the second theorem says which accepted entries those are:
+   encoded value length = 67 - keylen (cfitsio writes "key= 'value'"), or keylen > 58 (the 8-character minimum is truncated) *)
+Theorem C06_write_key_accepted_entry_ok : forall ks vs,
+  AuxModel.accepts Generated_aux.gen_params ks vs = true ->
+  str_eqb (lit ks) s_EXTNAME = false -> str_eqb (lit ks) s_HDUNAME = false ->
+  ((length (lit ks) <= 8)%nat \/ (length (lit ks) + Nat.max 8 (enc_len (lit vs)) <= 66)%nat) ->
+  aux_entry_ok (lit ks, lit vs) = true.
+Proof. exact write_key_accepted_entry_ok. Qed.
+Theorem C06_write_key_fit_gap : forall ks vs,
+  AuxModel.accepts Generated_aux.gen_params ks vs = true -> (8 < length (lit ks))%nat ->
+  (length (lit ks) + Nat.max 8 (enc_len (lit vs)) <= 66)%nat \/
+  (length (lit ks) + enc_len (lit vs) = 67)%nat \/ (58 < length (lit ks) <= 66)%nat.
+Proof. exact fit_condition_gap. Qed.
 
 (* "the reloaded table compares equal": table_op_eq is the model of splinetable::operator== (C06_Wf.v, section H).
    Every field operator== reads is equal in the reloaded table, so it compares to anything exactly as the original does,
@@ -120,6 +138,17 @@ Example ex_not_wf_table' :
   wf_doc (to_doc {| t_order := [0]; t_knots := [[0; 1]]; t_naxes := [1]; t_strides := [1]; t_coeffs := [0]; t_extents := None;
                t_periods := None; t_aux := [(repeat 75 30, repeat 122 37)] |}) = false.
 Proof. split; vm_compute; reflexivity. Qed.
+(* write_key accepts the example's keys and values (C16's model), also a value that only fits in cfitsio's compressed form *)
+Module ExAccepts.
+Import String.
+Local Open Scope string_scope.
+Example ex_accepts :
+  AuxModel.accepts Generated_aux.gen_params "LONGKEYNAME12" "a b" = true /\ AuxModel.accepts Generated_aux.gen_params "QUOTED" "it's ''" = true /\
+  lit "LONGKEYNAME12" = [76; 79; 78; 71; 75; 69; 89; 78; 65; 77; 69; 49; 50] /\
+  AuxModel.accepts Generated_aux.gen_params "KKKKKKKKKKKKKKKKKKKKKKKKKKKKKK" "zzzzzzzzzzzzzzzzzzzzzzzzzzzzzzzzzzzzz" = true /\
+  aux_entry_ok (lit "KKKKKKKKKKKKKKKKKKKKKKKKKKKKKK", lit "zzzzzzzzzzzzzzzzzzzzzzzzzzzzzzzzzzzzz") = false.
+Proof. repeat split; vm_compute; reflexivity. Qed.
+End ExAccepts.
 (* operator== on the example: it holds NaN coefficients, so it is not == to itself; with the NaNs replaced it is *)
 Example ex_nan_unequal : nan_free ex_table = false /\ table_op_eq ex_table ex_table = false. Proof. split; vm_compute; reflexivity. Qed.
 Definition ex_table3 : table :=
@@ -161,6 +190,8 @@ Print Assumptions C06_aux_padding_only.
 Print Assumptions C06_roundtrip_partial.
 Print Assumptions C06_wf_doc.
 Print Assumptions C06_roundtrip.
+Print Assumptions C06_write_key_accepted_entry_ok.
+Print Assumptions C06_write_key_fit_gap.
 Print Assumptions C06_reload_compares_equal.
 Print Assumptions C06_roundtrip_compares_equal.
 Print Assumptions C06_nan_compares_unequal.
